@@ -410,6 +410,7 @@ impl Session {
                 v
             }
             "values" => crate::valw::values(self, cmd),
+            "dqe" => crate::valw::dqe(self, cmd),
             "c15_sweep" => {
                 let mut v = crate::c15w::sweep(self);
                 v["ok"] = json!(true);
